@@ -15,6 +15,8 @@ E4 == 10000
 E5 == 100000
 
 IsFinite(f) == f[1] \in {-1, 0, 1}
+\* a real number, possibly too large for the projection (code 4): neither nan nor infinite nor a non-number
+IsReal(f) == f[1] \in {-1, 0, 1, 4}
 
 RECURSIVE Digits(_, _, _, _)
 \* k further decimal digits of r/q (r < q): <<accumulated digits, remainder>>
